@@ -730,9 +730,20 @@ class _Slice:
             return self.ev(n['e'])
         if k == 'Ref':
             return self.env.get(n.get('id'))
+        if k == 'Idx':
+            b_ = n['b']
+            while b_['k'] in ('Cast', 'Paren'):
+                b_ = b_['e']
+            arr = self.env.get(b_.get('id')) if b_['k'] == 'Ref' else None
+            i_ = self.ev(n['i'])
+            if isinstance(arr, list) and isinstance(i_, int) and 0 <= i_ < len(arr):
+                return arr[i_]
+            return None
         if k == 'Bin':
             op = n['op']
             a, b = self.ev(n['l']), self.ev(n['r'])
+            if isinstance(a, list) or isinstance(b, list):
+                return None
             if a is None or b is None:
                 return None
             if op in ('+', '-'):
@@ -747,9 +758,9 @@ class _Slice:
             if op == '*':
                 return a * b
             if op == '/':
-                return a // b if b else None
+                return (abs(a) // abs(b)) * (1 if (a >= 0) == (b >= 0) else -1) if b else None      # C division truncates towards zero
             if op == '%':
-                return a % b if b else None
+                return (a - b * ((abs(a) // abs(b)) * (1 if (a >= 0) == (b >= 0) else -1))) if b else None
             if op in ('<', '<=', '>', '>=', '==', '!='):
                 return int({'<': a < b, '<=': a <= b, '>': a > b, '>=': a >= b, '==': a == b, '!=': a != b}[op])
             if op == '&&':
@@ -822,6 +833,11 @@ class _Slice:
             return
         if k == 'Decl':
             for d in s['d']:
+                if 'init' in d and astq.is_node(d['init']) and d['init']['k'] == 'InitList' and d.get('arrlen') is not None:
+                    vs = [self.ev(e_) for e_ in d['init']['e']]
+                    if None not in vs:
+                        self.env[d['id']] = vs
+                    continue
                 if 'init' in d:
                     self.effects(d['init'])
                     v = self.ev(d['init'])
